@@ -573,6 +573,19 @@ func AutoDischarge(p *PPO) {
 				p.Discharged, p.Why = true, "constant low bound dominated by a len(base) test"
 			}
 		}
+		// s[lo:k] with constants lo <= k, dominated by len(s) >= k
+		if sl.High != nil && sl.Max == nil {
+			if k, ok := ConstInt(sl.High); ok && k > 0 {
+				lo := int64(0)
+				loOK := sl.Low == nil
+				if sl.Low != nil {
+					lo, loOK = ConstInt(sl.Low)
+				}
+				if loOK && lo >= 0 && lo <= k && DominatingGuard(f, p.Instr, func(cd *Cond) int { return lenGtEdge(cd, sl.X, k-1) }) {
+					p.Discharged, p.Why = true, "constant bounds dominated by a len(base) test"
+				}
+			}
+		}
 	case "div":
 		if k, ok := ConstInt(p.Operand); ok && k != 0 {
 			p.Discharged, p.Why = true, "constant divisor"
@@ -780,8 +793,8 @@ func lenGtEdge(cd *Cond, base ssa.Value, k int64) int {
 		switch {
 		case (r == ">" && c >= k) || (r == ">=" && c >= k+1):
 			return 0
-		case (r == "<=" && c <= k) || (r == "<" && c <= k+1):
-			return 1
+		case (r == "<=" && c >= k) || (r == "<" && c >= k+1):
+			return 1 // the false edge: len > c (resp. len >= c)
 		}
 	case "eq":
 		// len(x) == 0 → on the not-equal edge len > 0
